@@ -6,7 +6,7 @@ compared with R3 (flat memory) for values and R4 (tag-only reference cache) for 
 resident tags; the C12 invariant is evaluated at the quiescent point after every operation."""
 import copy
 
-from ..common import Result, rng_for, h64, make_riscv, install_program, set_regs, preload_mem, real_regs, M32
+from ..common import guarded, Result, rng_for, h64, make_riscv, install_program, set_regs, preload_mem, real_regs, M32
 from ..refmodels.refcache import FlatMem, RefCache
 from ..refmodels.rv32 import SeqRef, LOADS, STORES
 from ..refmodels.timed5 import TimedRef
@@ -169,7 +169,9 @@ class HistMonitor:
         self.res.violation(prop, kind, msg, v_case)
         if extra and self.res.violations and prop == self.res.prop:
             self.res.violations[-1].update(extra)
-        if fatal:
+        # a violation of ANOTHER property does not stop the history unless the operation did not complete
+        # (then flat memory / reference cache can no longer follow the real object)
+        if fatal and (prop == self.res.prop or kind in ("access-error", "spurious-reject")):
             self.dead = True
 
     def preload(self):
@@ -243,7 +245,8 @@ class HistMonitor:
                     self.unc_between = True
             if got != exp:
                 self.fail("C03", "read-mismatch", "%s returned %#x, flat memory holds %#x" % (where, got, exp))
-                return
+                if self.dead:
+                    return
             if any(((a + k) & M32) in self.written for k in range(w)) and w != 1:
                 self.flags.add("mixed_read")
             hit, ev = self.ref.access(a, False, counted=(op == "r"))
@@ -613,7 +616,7 @@ def run_shard(spec, res):
     rng = rng_for("cache", spec["tier"], spec["seed"], spec["kind"], spec["shard"])
     if spec["kind"] == "directed":
         for c in directed_cases():
-            run_case(prop, c, res)
+            guarded(run_case, prop, c, res)
             res.evaluations += 1
         return
     if spec["kind"] == "bfs":
@@ -626,7 +629,7 @@ def run_shard(spec, res):
         else:
             prog, regs = word_ok_program(rng)
             case = {"kind": "prog", "prog": prog, "regs": regs, "mem": G.init_mem(rng), "dcache": rand_cfg(rng, small=True), "max_instr": 250}
-        run_case(prop, case, res)
+        guarded(run_case, prop, case, res)
         res.evaluations += 1
         if it < 1:
             res.sample({k: (v if k != "ops" else v[:12] + ["... %d ops" % len(v)]) for k, v in case.items() if k != "preload"}, 4)
